@@ -154,9 +154,13 @@ static void bundle_hmac(const pc_t *s)
             parts(&pc, s->n, 2, blk);
             continue;
         }
-        pc.y = 2;
-        parts(&pc, s->n, (kl[j] == blk && (thorough || s->n <= 2 * blk + 1)) ? 1 : 0, blk);
-        if (kl[j] == blk || kl[j] == 1 || kl[j] == 2 * blk + 3)
+        /* quick: partitions of long messages only for key lengths 0, block, 2*block+3 (direct, full-block and hashed key) */
+        if (thorough || s->n <= blk + 1 || kl[j] == 0 || kl[j] == blk || kl[j] == 2 * blk + 3)
+        {
+            pc.y = 2;
+            parts(&pc, s->n, (kl[j] == blk && (thorough || s->n <= 129)) ? 1 : 0, blk);
+        }
+        if (kl[j] == blk || (thorough && (kl[j] == 1 || kl[j] == 2 * blk + 3)))
         {
             pc.y = 3;
             parts(&pc, s->n, 0, blk);
@@ -338,7 +342,8 @@ static void bundle_gcm(const pc_t *s)
             for (o = 0; o >= -1; o--)
             {
                 pc.o = o;
-                parts(&pc, s->n, level, 128);
+                /* quick: 2-cuts for AAD 0, 13, 17; 1-cuts for every AAD of the set */
+                parts(&pc, s->n, (level == 1 && !thorough && (j == 1 || j == 3)) ? 0 : level, 128);
             }
         }
         /* tag lengths, fresh context and re-used context */
@@ -569,7 +574,9 @@ static void build_bundles(void)
         int wrapper = g >= HA_GEN256;
         for (n = 0; n <= top; n++)
         {
-            int level = (!wrapper && (thorough || n <= 2 * blk + 1 || (n % blk) >= blk - 9 || (n % blk) <= 1)) ? 1 : 0;
+            int r = n % blk, padb = blk - (blk == 128 ? 16 : 8);
+            int window = r >= blk - 2 || r <= 1 || (r >= padb - 2 && r <= padb + 1);
+            int level = (!wrapper && (thorough || n <= blk + 1 || (window && (blk == 64 || n <= 2 * blk + 1)) || (blk == 64 && n <= 2 * blk + 1))) ? 1 : 0;
             add_bundle(T_HASH, g, n, level, 0, (double) n * n * (level ? n : 4) / blk + 300);
         }
         for (j = 0; j < NGRID && thorough; j++)
@@ -583,7 +590,7 @@ static void build_bundles(void)
         int blk = ref_hblock[MAPI[g].halg];
         for (n = 0; n <= 4 * blk + 1; n++)
         {
-            add_bundle(T_HMAC, g, n, 0, 0, (double) n * n * (n <= 2 * blk + 1 || thorough ? n : 20) / blk + 2000);
+            add_bundle(T_HMAC, g, n, 0, 0, (double) n * n * (n <= 129 || thorough ? n : 20) / blk + 2000);
         }
         for (j = 0; j < NGRID && thorough; j++)
         {
@@ -694,7 +701,14 @@ static void run_group(long gi, void *unused)
     }
     g_slot->active = 0;
     bundle_desc(s, desc, sizeof(desc));
-    mx_fork_case(desc, bundle_case, (void *) s);
+    {
+        double t0 = now_s();
+        mx_fork_case(desc, bundle_case, (void *) s);
+        if (getenv("C12_TIMING") && now_s() - t0 > atof(getenv("C12_TIMING")))
+        {
+            fprintf(stderr, "slow bundle %.1fs (est %.0f): %s\n", now_s() - t0, bcost[order[gi]], desc);
+        }
+    }
     if (g_slot->active)
     {
         /* the bundle child died (sanitizer abort / signal) while this primitive was running */
@@ -704,7 +718,7 @@ static void run_group(long gi, void *unused)
         pc_desc(&pc, r.desc, sizeof(r.desc), (const char *) g_slot->fam, "child died inside this primitive");
         r.violation = 1;
         r.nontrivial = 1;
-        snprintf(r.key, sizeof(r.key), "crash|%s|len=%d|%s", alg_label(&pc), pc.n, (const char *) g_slot->fam);
+        snprintf(r.key, sizeof(r.key), "crash|%s|%s", alg_label(&pc), (const char *) g_slot->fam);
         snprintf(r.what, sizeof(r.what), "process aborted (ASan/UBSan report or signal) inside the library while running %s", r.desc);
         snprintf(r.outcome, sizeof(r.outcome), "CRASH-in-primitive");
         mx_record(&r);
@@ -805,7 +819,7 @@ int main(int argc, char **argv)
                 char fam[32];
                 pc_fam(replay, fam, sizeof(fam));
                 r.violation = 1;
-                snprintf(r.key, sizeof(r.key), "%s|len=%d|%s", alg_label(&pc), pc.n, fam);
+                snprintf(r.key, sizeof(r.key), "%s|%s", alg_label(&pc), fam);
                 snprintf(r.what, sizeof(r.what), "%s", what);
             }
             snprintf(r.outcome, sizeof(r.outcome), "%s", rc == 0 ? "equal" : rc == 1 ? "MISMATCH" : rc == 3 ? "UBSAN" : "refused");
